@@ -157,7 +157,65 @@ def _grid_one(c):
 replay_grids = common.per_case(_grid_one, 'ops')
 
 
+# ----------------------------------------------------------------------------------------------
+# analytic derivatives of polynomial fields (OperatorsPoly.tla)
+# ----------------------------------------------------------------------------------------------
+
+def _poly_one(c):
+  """Spectral operators of the real Grid vs the analytic derivatives of the synthesised function, at every node."""
+  np, jax, jnp = spectral.np_jax()
+  from harness import dataflow
+  from harness.common import fl
+  out = []
+  a = fl(c['a'])
+
+  def peval(terms, X, Y, Z):
+    tot = np.zeros_like(X)
+    for i, j, k, n, d in terms:
+      tot = tot + (n / d) * X ** i * Y ** j * Z ** k
+    return tot
+  for g in (dict(M=5, L=6), dict(M=5, L=6, impl='fast', mult=2), dict(M=6, L=7, offset=0.4)):
+    grid = dataflow.make_grid(g, radius=a)
+    lon, sinlat = (np.asarray(v, np.float64) for v in grid.nodal_mesh)
+    cosl = np.sqrt(1 - sinlat ** 2)
+    X, Y, Z = cosl * np.cos(lon), cosl * np.sin(lon), sinlat
+    real = np.zeros(X.shape, bool)
+    real[:grid.longitude_nodes, :grid.latitude_nodes] = True
+    ev = lambda t: np.where(real, peval(t, X, Y, Z), 0.0)
+    fm = grid.to_modal(jnp.asarray(ev(c['f'])))
+    gu, gv = grid.cos_lat_grad(fm, clip=False)
+    got = {'dlon': grid.d_dlon(fm), 'cosdlat': grid.cos_lat_d_dlat(fm), 'secdlatcos2': grid.sec_lat_d_dlat_cos2(fm),
+           'laplacian': grid.laplacian(fm), 'gradu': gu, 'gradv': gv}
+    for name, modal in got.items():
+      nod = np.asarray(grid.to_nodal(modal))
+      exp = ev(c[name])
+      scale = 1.0 + float(np.abs(exp).max())
+      err = np.where(real, np.abs(nod - exp), 0.0)
+      if not np.all(np.isfinite(nod)) or err.max() > 1e-11 * scale:
+        j = np.unravel_index(np.argmax(err), err.shape)
+        out.append({'case': c, 'sig': f'analytic:{name}',
+                    'detail': f'grid {g} radius {a}: {name} of the synthesised field at node (lon {lon[j]:.4f}, sin(lat) {sinlat[j]:.4f}): '
+                              f'code {nod[j]!r}, analytic derivative {exp[j]!r}'})
+    # inverse Laplacian undoes the Laplacian on the zero-mean part
+    back = np.asarray(grid.to_nodal(grid.inverse_laplacian(got['laplacian'])))
+    f0 = ev(c['f'])
+    mean = float(np.asarray(grid.to_modal(jnp.asarray(f0)))[0, 0]) / dataflow.SQRT4PI / a ** 0
+    zm = np.where(real, f0 - np.asarray(grid.to_nodal(jnp.zeros(grid.modal_shape).at[0, 0].set(np.asarray(grid.to_modal(jnp.asarray(f0)))[0, 0]))), 0.0)
+    err = np.where(real, np.abs(back - zm), 0.0)
+    if err.max() > 1e-11 * (1.0 + np.abs(zm).max()):
+      out.append({'case': c, 'sig': 'analytic:inverse_laplacian',
+                  'detail': f'grid {g} radius {a}: inverse_laplacian(laplacian(f)) differs from the zero-mean part of f by {err.max():.3e}'})
+  return out
+
+
+replay_poly = common.per_case(_poly_one, 'analytic')
+
+
 def replay(ctx, kind, cases):
+  if kind == 'analytic':
+    for m in replay_poly(cases):
+      ctx.mismatch(kind, m['case'], m['sig'], m['detail'])
+    return
   _ensure_tables(ctx)
   for m in replay_grids(cases):
     ctx.mismatch(kind, m['case'], m['sig'], m['detail'])
@@ -198,6 +256,16 @@ def run(ctx):
     ctx.distinct.add((c['M'], c['L'], c['I'], c['J'], c['spacing'], c['impl'], c['mult']))
   for m in res:
     ctx.mismatch('ops', m['case'], m['sig'], m['detail'])
+  # the analytic side: derivatives of polynomial fields on the sphere, pointwise
+  rp = ctx.tlc('OperatorsPoly', 'OperatorsPoly.cfg', workers=2)
+  ctx.require_actions(rp, ['First', 'Second'])
+  if len(rp.cases) < 12:
+    raise common.MachineryError('OperatorsPoly: too few cases')
+  for m in common.parallel_map('c02', 'replay_poly', rp.cases, nproc=4, tag='poly', outdir=os.path.join(ctx.out, 'par')):
+    ctx.mismatch('analytic', m['case'], m['sig'], m['detail'])
+  ctx.replayed += len(rp.cases)
+  ctx.comparisons += 7 * 3 * len(rp.cases)
+  ctx.sample({'analytic_case': {k: rp.cases[0][k] for k in ('f', 'a', 'dlon', 'cosdlat')}})
   ctx.sample({'table': 'CosD', 'm': ra.cases[1]['m'], 'entries': ra.cases[1]['CosD'][:4]})
   s = cases[len(cases) // 2]
   ctx.sample({k: s[k] for k in ('M', 'L', 'I', 'J', 'spacing', 'impl', 'mult', 'modal_shape', 'radii')})
